@@ -29,8 +29,7 @@ open MLPE
   unfold nodeFinally
   split
   · simp
-  · simp only []
-    split <;> simp
+  · simp
 
 @[simp] theorem core_unwindFrames (P : Program) (s : St) (fs : List Frame) :
     (unwindFrames P s fs).core = s.core := by
